@@ -1,3 +1,4 @@
 pub mod pq;
 pub mod sched;
 pub mod sinks;
+pub mod synccell;
